@@ -63,6 +63,7 @@ type Tokenizer struct {
 	tokenAvail       int
 	token            [2]Token
 	line             Line
+	tokenLine        Line
 	number           Matcher
 	identifier       Matcher
 	operatorDetector OperatorDetector
@@ -179,8 +180,9 @@ func (t *Tokenizer) Next() Token {
 	}
 }
 
+// getLine returns the line on which the token being scanned starts
 func (t *Tokenizer) getLine() Line {
-	return t.line
+	return t.tokenLine
 }
 
 func (t *Tokenizer) run(tokens chan<- Token) {
@@ -188,7 +190,10 @@ func (t *Tokenizer) run(tokens chan<- Token) {
 	lastWasBlank := false
 	for {
 		thisTokenType := tInvalid
-		switch n := t.next(true); n {
+		n := t.next(true)
+		// the lookahead behind a token may pass line breaks inside a block comment
+		t.tokenLine = t.line
+		switch n {
 		case '\n':
 			t.line++
 			lastWasBlank = true
